@@ -35,6 +35,8 @@ func init() {
 			c.ruleScanner("R-SCAN-NUMBER-PARTS", scannerSpec{key: "internal/encoding/json.parseNumberParts", regex: jsonNumberRx, what: "JSON number (RFC 8259 §6)", usePrefix: true})
 			c.ruleIntStringShift("R-INTSTRING-SHIFT")
 			c.ruleQuotedNumber("R-QUOTED-NUMBER")
+			c.ruleParseWidth("R-PARSE-WIDTH", "encoding/protojson", 2)
+			c.ruleBase64Select("R-BASE64-SELECT")
 			c.ruleFloatBits("R-FLOATBITS", inPkgs("internal/encoding/json", "encoding/protojson"), 1)
 			c.ruleKindContext("R-KIND-CONTEXT", []string{"encoding/protojson", "internal/encoding/json"}, 10)
 		},
